@@ -16,7 +16,8 @@ Mirrors the code loop for loop, array for array:
                   same sweep see it);
 * `voteUpdate`  : the kernel: `votes` sized by the largest label + 1, then the sweep over `index`;
 * `instantiateVars`, `reorder`, `propLoop`, `fit` : `Propagation._instantiate_vars`, the node orders,
-                  the stopping loop and `Propagation.fit`.
+                  the stopping loop and `Propagation.fit` (`propLoop` is stated for any bound `nIter : Option Nat`, `none` = no bound;
+                  the code calls it with `some (sweepLimit n_iter n)`).
 `Propagation.fit` runs the sweeps on the seed labels compacted to `0 … k-1` (`np.unique(…, return_inverse=True)`, repo commit
 b75478a7) and maps them back before `labels_` / `probs_`; the relabelling preserves the order of the labels, hence the tie rule
 (`vote_update_node_exact`: smallest label of maximal vote), so the model iterates on the given label values.
@@ -142,6 +143,13 @@ def propLoop (step : List Int → List Int) (key : List Int → List Int) :
   | fuel+1, nIter, t, seen, labels =>
     if nIter == some 0 || seen.contains (key labels) then some (labels, t)
     else propLoop step key fuel (nIter.map (· - 1)) (t+1) (key labels :: seen) (step labels)
+
+/-- the number of sweeps `fit` allows: `n_iter` if it is non-negative, `n + 1` for a negative `n_iter` (`none`), `n` the
+    number of nodes of the routed adjacency (repo commit be74e3a8: "until the labels stop changing, at most n + 1 sweeps") -/
+def sweepLimit (nIterArg : Option Nat) (n : Nat) : Nat :=
+  match nIterArg with
+  | none => n + 1
+  | some k => k
 
 structure PropArgs where
   weighted : Bool := true
